@@ -353,7 +353,7 @@ def job(args):
     # o = v.copy(), and solvePDE on either variable.  At every solvePDE the system handed to the solver must carry the *current*
     # coefficient of the edited face and no earlier one, and every term exactly once in an interior row (exact: all values are
     # distinct atoms).  This complements the inductive rules P1..P9 with the states only copies / explicit results reach.
-    if cls in ('Grid1D',) or tier != 'quick':
+    if cls in ('Grid1D', 'Grid2D', 'Grid3D') or tier != 'quick':        # quick: one class per dimension (the boundary term differs per dimension)
         from ..interp import AFuncRef
         from ..npmodel import deep_copy
         fsolve, fexp = sm.func('pdesolver', 'solvePDE'), sm.func('pdesolver', 'solveExplicitPDE')
